@@ -33,6 +33,22 @@ def run(tier):
         key = (cell["w"], cell["i"], cell["p"])
         if not cell["exists"]:
             continue
+        if cell["w"] == "mcall":
+            # `handle.into_opaque()` as a method call: whatever it resolves to, a by-value result is the opaque form of
+            # that handle.  (A `&c_void` result is the `&T` rule applied to the handle itself: the ref row speaks for it.)
+            if not cell["result"].startswith("&"):
+                hb = inst_base[(cell["i"], cell["p"])]
+                for m in ("Send", "Sync"):
+                    n_eval += 1
+                    if cell["opaque"][m] and not hb[m]:
+                        site = "%s:%s:%s" % (cell["i"], cell["p"], m)
+                        if site in known:
+                            if site not in seen_sites:
+                                c.known(known[site]["id"], known[site]["what"])
+                                seen_sites.add(site)
+                        else:
+                            c.violation("`.into_opaque()` called on a typed %s over a %s payload yields %s, which is %s although the handle is not" % (cell["i"], cell["p"], cell["result"], m), {"cell": cell})
+            continue
         if cell["w"] == "view":
             # slices, vectors, option/result/tuple, callbacks, iterators: not objects, groups or smart pointers - the
             # property says nothing about them; what the probe sees is kept as information
@@ -86,7 +102,7 @@ def run(tier):
                 elif cell["conv"] and cell["opaque"][m] != p["opaque"][m]:
                     c.drift("opaque %s/%s/%s %s: observed %s, ImplRules predict %s" % (cell["w"], cell["i"], cell["p"], m, cell["opaque"][m], p["opaque"][m]))
     c.cov["beyond_the_property_information_only"] = beyond
-    cells = [x for x in cells if x["w"] != "view"]
+    cells = [x for x in cells if x["w"] not in ("view", "mcall")]
     c.sample(cells[0])
     c.sample([c2 for c2 in cells if c2["exists"] and c2["conv"] and c2["opaque"]["Send"] and not c2["base"]["Send"]][:1])
     c.assumptions += ["payload classes: u64 (Send+Sync), Cell<u64> (Send only), PhantomData<MutexGuard> (Sync only), Rc<u64> (neither)",
